@@ -1,23 +1,746 @@
-//! C12: not built yet
+//! C12: topic-filter matching and validation follow the MQTT rules in all three copies.
+//!
+//! Substrate S1: the public functions `matches`, `valid_filter`, `valid_topic`,
+//! `has_wildcards` of `rumqttc`, `rumqttc::v5::mqttbytes` and `rumqttd::protocol` are called
+//! directly, every call under `guarded` (catch_unwind + panic location).
+//!
+//! Oracles (names as they appear in records and in the evidence):
+//! * `panic`            – a call panicked (facts: function, copy, site, input_class);
+//! * `copies-disagree`  – the three copies returned different answers for the same input
+//!                        (judged on *every* input, valid or not, empty or not);
+//! * `matches-conformance` – on (valid topic, valid filter), both non-empty, the common
+//!                        answer differs from M-match (`model::mmatch`);
+//! * `valid-filter-conformance`, `valid-topic-conformance`, `has-wildcards-conformance` –
+//!                        on a non-empty string the common answer differs from M-match.
+//!
+//! What is *not* judged: the answer on the empty string and the answer of `matches` outside
+//! (valid topic, valid filter) – the statement defines neither; there only no-panic and
+//! agreement are demanded. The `DataLog::matches` cache clause is covered by the router
+//! checks (S4), not here.
+//!
+//! Miri smoke (DESIGN.md 2.8, manual: the dependency tree takes ~6 min to build under Miri):
+//! `VERIF_THREADS=1 MIRIFLAGS=-Zmiri-disable-isolation cargo +nightly miri run --offline --bin vh -- C12`
+//! runs a few thousand calls (`cfg!(miri)` in `plan`); only Miri's own UB report counts there.
+//!
+//! A case is one (topic, filter) pair or one string; after a known-finding hit the case is
+//! not judged further (nothing else is affected: the functions are pure).
 use super::{Meta, Prop};
-use crate::common::{Ctx, Stats};
+use crate::common::{fnv, guarded, judge, sharded, Ctx, PanicInfo, Record, Rng, Stats};
+use crate::model::mmatch as mm;
+use serde_json::{json, Value};
 
-fn run(_ctx: &Ctx) -> Stats {
-    let mut s = Stats::default();
-    s.inconclusive.push("check not built yet".into());
-    s
+const ID: &str = "C12";
+
+/// DESIGN.md section 3 "C12": a, b, '/', '+', '#', '$', a 2-byte and a 3-byte character
+const ALPHABET: [char; 8] = ['a', 'b', '/', '+', '#', '$', 'é', '€'];
+/// random phase only: adds an upper-case letter for the "case-sensitively" clause and a
+/// 4-byte character
+const LITERALS: [char; 7] = ['a', 'b', 'A', '$', 'é', '€', '𝄞'];
+const RANDOM_ALPHABET: [char; 10] = ['a', 'b', 'A', '/', '+', '#', '$', 'é', '€', '𝄞'];
+
+struct Impl {
+    name: &'static str,
+    matches: fn(&str, &str) -> bool,
+    valid_filter: fn(&str) -> bool,
+    valid_topic: fn(&str) -> bool,
+    has_wildcards: fn(&str) -> bool,
+}
+
+const COPIES: [Impl; 3] = [
+    Impl {
+        name: "rumqttc-v4",
+        matches: rumqttc::matches,
+        valid_filter: rumqttc::valid_filter,
+        valid_topic: rumqttc::valid_topic,
+        has_wildcards: rumqttc::has_wildcards,
+    },
+    Impl {
+        name: "rumqttc-v5",
+        matches: rumqttc::v5::mqttbytes::matches,
+        valid_filter: rumqttc::v5::mqttbytes::valid_filter,
+        valid_topic: rumqttc::v5::mqttbytes::valid_topic,
+        has_wildcards: rumqttc::v5::mqttbytes::has_wildcards,
+    },
+    Impl {
+        name: "rumqttd",
+        matches: rumqttd::protocol::matches,
+        valid_filter: rumqttd::protocol::valid_filter,
+        valid_topic: rumqttd::protocol::valid_topic,
+        has_wildcards: rumqttd::protocol::has_wildcards,
+    },
+];
+
+// ---------------------------------------------------------------- counters
+
+const CORNERS: [&str; 9] = [
+    "hash-matches-parent",
+    "hash-matches-deeper-levels",
+    "plus-matches-empty-level",
+    "plus-refuses-extra-level",
+    "dollar-topic-unmatched",
+    "multibyte-first-char-topic",
+    "multibyte-inside-topic",
+    "empty-level-literal-match",
+    "differs-only-in-case",
+];
+
+/// Plain counters, flushed into `Stats` once (the per-call `Stats` methods allocate)
+#[derive(Default)]
+struct Tally {
+    calls: u64,
+    panics: u64,
+    no_panic: u64,
+    agree: u64,
+    conf_matches: u64,
+    conf_matches_true: u64,
+    conf_valid_filter: u64,
+    conf_valid_topic: u64,
+    conf_has_wildcards: u64,
+    pairs: u64,
+    strings: u64,
+    corners: [u64; 9],
+}
+
+impl Tally {
+    fn flush(&self, st: &mut Stats) {
+        st.opn("matches-call", self.pairs * 3);
+        st.opn("validation-call", self.strings * 9);
+        st.oraclen("panic", self.no_panic);
+        st.oraclen("copies-disagree", self.agree);
+        st.oraclen("matches-conformance", self.conf_matches);
+        st.oraclen("valid-filter-conformance", self.conf_valid_filter);
+        st.oraclen("valid-topic-conformance", self.conf_valid_topic);
+        st.oraclen("has-wildcards-conformance", self.conf_has_wildcards);
+        st.add_extra("matches_conformance_answer_true", self.conf_matches_true);
+        st.add_extra("calls_into_code_under_test", self.calls);
+        st.panics_caught += self.panics;
+        for (i, name) in CORNERS.iter().enumerate() {
+            if self.corners[i] > 0 {
+                *st.corners.entry((*name).to_owned()).or_default() += self.corners[i];
+            }
+        }
+    }
+}
+
+// ---------------------------------------------------------------- one case
+
+fn first_char_multibyte(s: &str) -> bool {
+    s.chars().next().map(|c| c.len_utf8() > 1).unwrap_or(false)
+}
+
+fn panic_record(function: &str, copy: &str, p: &PanicInfo, input_class: &str, shown: String) -> Record {
+    Record::new(
+        ID,
+        "panic",
+        format!("{copy} {function}({shown}) panicked at {}: {}", p.location, p.message),
+    )
+    .fact("function", function)
+    .fact("copy", copy)
+    .fact("site", crate::common::panic_site(p))
+    .fact("input_class", input_class)
+}
+
+/// true: stop the run (enough violations collected)
+fn enough(st: &Stats) -> bool {
+    st.violations.len() >= 5
+}
+
+/// Three guarded calls; None when the case ended (known finding or violation on a panic)
+fn call3<T: PartialEq + std::fmt::Debug + Copy>(
+    ctx: &Ctx,
+    st: &mut Stats,
+    ta: &mut Tally,
+    function: &str,
+    input_class: &str,
+    shown: &dyn Fn() -> String,
+    replay: &dyn Fn() -> Value,
+    f: impl Fn(&Impl) -> T,
+) -> Option<T> {
+    let mut out: [Option<T>; 3] = [None; 3];
+    let mut ended = false;
+    for (i, c) in COPIES.iter().enumerate() {
+        ta.calls += 1;
+        ta.no_panic += 1;
+        match guarded(|| f(c)) {
+            Ok(v) => out[i] = Some(v),
+            Err(p) => {
+                ta.panics += 1;
+                ended = true;
+                let rec = panic_record(function, c.name, &p, input_class, shown());
+                // a known finding is looked up per copy: every copy is still called
+                let _ = judge(ctx, st, rec, replay);
+            }
+        }
+    }
+    if ended {
+        return None;
+    }
+    ta.agree += 1;
+    let (a, b, c) = (out[0].unwrap(), out[1].unwrap(), out[2].unwrap());
+    if a != b || b != c {
+        let rec = Record::new(
+            ID,
+            "copies-disagree",
+            format!(
+                "{function}({}) = {a:?} in rumqttc-v4, {b:?} in rumqttc-v5, {c:?} in rumqttd",
+                shown()
+            ),
+        )
+        .fact("function", function)
+        .fact("rumqttc-v4", format!("{a:?}"))
+        .fact("rumqttc-v5", format!("{b:?}"))
+        .fact("rumqttd", format!("{c:?}"));
+        // nothing sensible to compare with the model; the disagreement is the report
+        let _ = judge(ctx, st, rec, replay);
+        return None;
+    }
+    Some(a)
+}
+
+fn conformance(
+    ctx: &Ctx,
+    st: &mut Stats,
+    oracle: &str,
+    function: &str,
+    shown: String,
+    got: bool,
+    want: bool,
+    replay: &dyn Fn() -> Value,
+) {
+    let rec = Record::new(
+        ID,
+        oracle,
+        format!("{function}({shown}) = {got} in all three copies, the MQTT rules say {want}"),
+    )
+    .fact("function", function)
+    .fact("got", got)
+    .fact("want", want);
+    let _ = judge(ctx, st, rec, replay);
+}
+
+/// matches(topic, filter) in the three copies
+fn check_pair(ctx: &Ctx, st: &mut Stats, ta: &mut Tally, topic: &str, filter: &str, in_domain: bool) {
+    ta.pairs += 1;
+    let class = if first_char_multibyte(topic) {
+        ta.corners[5] += 1;
+        "topic-first-char-multibyte"
+    } else {
+        "other"
+    };
+    let shown = || format!("{topic:?}, {filter:?}");
+    let replay = || json!({"kind": "pair", "topic": topic, "filter": filter});
+    let Some(got) = call3(ctx, st, ta, "matches", class, &shown, &replay, |c| (c.matches)(topic, filter)) else {
+        return;
+    };
+    if !in_domain {
+        return;
+    }
+    let want = mm::matches(topic, filter);
+    ta.conf_matches += 1;
+    if want {
+        ta.conf_matches_true += 1;
+    }
+    note_corners(ta, topic, filter, want);
+    if got != want {
+        conformance(ctx, st, "matches-conformance", "matches", shown(), got, want, &replay);
+    }
+}
+
+/// the three validation functions on one string
+fn check_string(ctx: &Ctx, st: &mut Stats, ta: &mut Tally, s: &str) {
+    ta.strings += 1;
+    let shown = || format!("{s:?}");
+    let replay = || json!({"kind": "string", "s": s});
+    let judged = !s.is_empty();
+    if let Some(got) = call3(ctx, st, ta, "valid_filter", "any", &shown, &replay, |c| (c.valid_filter)(s)) {
+        if judged {
+            ta.conf_valid_filter += 1;
+            let want = mm::valid_filter(s);
+            if got != want {
+                conformance(ctx, st, "valid-filter-conformance", "valid_filter", shown(), got, want, &replay);
+            }
+        }
+    }
+    if let Some(got) = call3(ctx, st, ta, "valid_topic", "any", &shown, &replay, |c| (c.valid_topic)(s)) {
+        if judged {
+            ta.conf_valid_topic += 1;
+            let want = mm::valid_topic(s);
+            if got != want {
+                conformance(ctx, st, "valid-topic-conformance", "valid_topic", shown(), got, want, &replay);
+            }
+        }
+    }
+    if let Some(got) = call3(ctx, st, ta, "has_wildcards", "any", &shown, &replay, |c| (c.has_wildcards)(s)) {
+        if judged {
+            ta.conf_has_wildcards += 1;
+            let want = mm::has_wildcards(s);
+            if got != want {
+                conformance(ctx, st, "has-wildcards-conformance", "has_wildcards", shown(), got, want, &replay);
+            }
+        }
+    }
+}
+
+/// Named situations of the statement, recognised on (valid topic, valid filter) pairs from
+/// the strings alone (never from the code under test)
+fn note_corners(ta: &mut Tally, topic: &str, filter: &str, want: bool) {
+    let t: Vec<&str> = topic.split('/').collect();
+    let f: Vec<&str> = filter.split('/').collect();
+    if topic.starts_with('$') {
+        // would match if the '$' rule did not exist
+        if mm::matches(&topic[1..], filter.strip_prefix('$').unwrap_or(filter)) || filter == "#" {
+            ta.corners[4] += 1;
+        }
+        return;
+    }
+    if want && f.last() == Some(&"#") {
+        if t.len() == f.len() - 1 {
+            ta.corners[0] += 1;
+        } else if t.len() > f.len() {
+            ta.corners[1] += 1;
+        }
+    }
+    if want && f.iter().zip(t.iter()).any(|(fl, tl)| *fl == "+" && tl.is_empty()) {
+        ta.corners[2] += 1;
+    }
+    if !want && f.last() == Some(&"+") && t.len() > f.len() && mm::matches(&t[..f.len()].join("/"), filter) {
+        ta.corners[3] += 1;
+    }
+    if !first_char_multibyte(topic) && !topic.is_ascii() {
+        ta.corners[6] += 1;
+    }
+    if want && f.iter().zip(t.iter()).any(|(fl, tl)| fl.is_empty() && tl.is_empty()) {
+        ta.corners[7] += 1;
+    }
+    if !want && topic != filter && topic.eq_ignore_ascii_case(filter) {
+        ta.corners[8] += 1;
+    }
+}
+
+// ---------------------------------------------------------------- shapes
+
+/// Level classes of a string: the structure the MQTT rules look at, letters abstracted
+fn level_classes(s: &str) -> String {
+    let mut out = String::new();
+    for (i, level) in s.split('/').enumerate() {
+        if i > 0 {
+            out.push('/');
+        }
+        out.push(match level {
+            "" => 'e',
+            "+" => '+',
+            "#" => '#',
+            l if l.contains('+') || l.contains('#') => 'w',
+            l if l.starts_with('$') => '$',
+            l if first_char_multibyte(l) => 'm',
+            l if !l.is_ascii() => 'n',
+            _ => 'l',
+        });
+    }
+    out
+}
+
+fn shape(topic: &str, filter: &str, want: bool) -> u64 {
+    fnv(format!("{}|{}|{}", level_classes(topic), level_classes(filter), want).as_bytes())
+}
+
+// ---------------------------------------------------------------- enumeration
+
+struct Entry {
+    s: String,
+    topic_ok: bool,
+    filter_ok: bool,
+}
+
+/// every string of at most `max` symbols over `ALPHABET`, shortest first (the empty one too)
+fn all_strings(max: usize) -> Vec<Entry> {
+    let mut out = vec![String::new()];
+    let mut from = 0;
+    for _ in 0..max {
+        let to = out.len();
+        for i in from..to {
+            for c in ALPHABET {
+                let mut s = out[i].clone();
+                s.push(c);
+                out.push(s);
+            }
+        }
+        from = to;
+    }
+    out.into_iter()
+        .map(|s| Entry {
+            topic_ok: mm::valid_topic(&s),
+            filter_ok: mm::valid_filter(&s),
+            s,
+        })
+        .collect()
+}
+
+fn count_strings(max: usize) -> u64 {
+    (0..=max as u32).map(|k| 8u64.pow(k)).sum()
+}
+
+// ---------------------------------------------------------------- random strings
+
+fn random_level(rng: &mut Rng) -> String {
+    if rng.chance(1, 8) {
+        return String::new();
+    }
+    let n = rng.range(1, 4);
+    (0..n).map(|_| *rng.pick(&LITERALS)).collect()
+}
+
+fn random_topic(rng: &mut Rng, allow_trigger: bool) -> String {
+    let levels = *rng.pick(&[1u64, 1, 2, 2, 3, 3, 4, 5, 8, 12]);
+    let mut t: Vec<String> = (0..levels).map(|_| random_level(rng)).collect();
+    if !allow_trigger {
+        while first_char_multibyte(&t[0]) {
+            t[0] = random_level(rng);
+        }
+    } else if rng.chance(1, 2) {
+        t[0] = format!("{}{}", rng.pick(&['é', '€', '𝄞']), t[0]);
+    }
+    let s = t.join("/");
+    if s.is_empty() {
+        "a".to_owned()
+    } else {
+        s
+    }
+}
+
+/// a filter built from the topic's own levels, so that matches are frequent
+fn filter_for(rng: &mut Rng, topic: &str) -> String {
+    let t: Vec<&str> = topic.split('/').collect();
+    let mut f: Vec<String> = Vec::new();
+    for level in &t {
+        match rng.below(20) {
+            0..=10 => f.push((*level).to_owned()),
+            11..=15 => f.push("+".to_owned()),
+            16 => f.push(random_level(rng)),
+            17 => f.push(level.to_uppercase()),
+            18 => {
+                f.push("#".to_owned());
+                break;
+            }
+            _ => break,
+        }
+    }
+    match rng.below(10) {
+        0 | 1 => f.push("#".to_owned()),
+        2 => f.push("+".to_owned()),
+        3 => f.push(random_level(rng)),
+        _ => {}
+    }
+    if f.is_empty() {
+        f.push("#".to_owned());
+    }
+    let s = f.join("/");
+    if s.is_empty() {
+        "+".to_owned()
+    } else {
+        s
+    }
+}
+
+/// one edit with a symbol of the full alphabet (may leave the valid shapes)
+fn mutate(rng: &mut Rng, s: &str, allow_trigger: bool) -> String {
+    let mut cs: Vec<char> = s.chars().collect();
+    let sym = *rng.pick(&RANDOM_ALPHABET);
+    match rng.below(3) {
+        0 => {
+            let at = rng.below(cs.len() as u64 + 1) as usize;
+            cs.insert(at, sym);
+        }
+        1 if !cs.is_empty() => {
+            let at = rng.below(cs.len() as u64) as usize;
+            cs.remove(at);
+        }
+        _ if !cs.is_empty() => {
+            let at = rng.below(cs.len() as u64) as usize;
+            cs[at] = sym;
+        }
+        _ => cs.push(sym),
+    }
+    let out: String = cs.into_iter().collect();
+    if !allow_trigger && first_char_multibyte(&out) {
+        return s.to_owned();
+    }
+    out
+}
+
+fn random_case(rng: &mut Rng) -> (String, String, bool) {
+    // ~15 % of the cases may contain the trigger of the known multi-byte first character
+    // panic of matches(); the rest is trigger-free by construction
+    let allow_trigger = rng.chance(15, 100);
+    let mut topic = random_topic(rng, allow_trigger);
+    let mut filter = if rng.chance(4, 5) {
+        filter_for(rng, &topic)
+    } else {
+        let other = random_topic(rng, true);
+        filter_for(rng, &other)
+    };
+    if rng.chance(1, 4) {
+        if rng.chance(1, 2) {
+            topic = mutate(rng, &topic, allow_trigger);
+        } else {
+            filter = mutate(rng, &filter, true);
+        }
+    }
+    // up to 40 symbols
+    let cut = |s: String| s.chars().take(40).collect::<String>();
+    (cut(topic), cut(filter), allow_trigger)
+}
+
+// ---------------------------------------------------------------- the run
+
+struct Plan {
+    /// every (topic, filter) pair of strings of at most this many symbols
+    pairs_max: usize,
+    /// every (valid topic, valid filter) pair of at most this many symbols
+    valid_pairs_max: usize,
+    /// the validation functions on every string of at most this many symbols
+    strings_max: usize,
+    random: u64,
+}
+
+/// the `index`-th string of exactly `len` symbols (base-8 digits, most significant first)
+fn nth_string(len: usize, mut index: u64) -> String {
+    let mut cs = ['a'; 16];
+    for k in (0..len).rev() {
+        cs[k] = ALPHABET[(index % 8) as usize];
+        index /= 8;
+    }
+    cs[..len].iter().collect()
+}
+
+fn work(ctx: &Ctx, plan: &Plan, strings: &[Entry], shard: usize, shards: usize, seed: u64) -> Stats {
+    let mut st = Stats::default();
+    let mut ta = Tally::default();
+
+    // (1) validation functions, exhaustive
+    'strings: for len in 0..=plan.strings_max {
+        for index in 0..8u64.pow(len as u32) {
+            if index as usize % shards != shard {
+                continue;
+            }
+            st.evaluations += 1;
+            check_string(ctx, &mut st, &mut ta, &nth_string(len, index));
+            if enough(&st) {
+                break 'strings;
+            }
+        }
+    }
+
+    // (2) all pairs, exhaustive
+    let n_pairs = count_strings(plan.pairs_max) as usize;
+    'pairs: for (i, t) in strings[..n_pairs].iter().enumerate() {
+        if i % shards != shard {
+            continue;
+        }
+        for f in &strings[..n_pairs] {
+            st.evaluations += 1;
+            let in_domain = t.topic_ok && f.filter_ok;
+            check_pair(ctx, &mut st, &mut ta, &t.s, &f.s, in_domain);
+            if in_domain {
+                st.shapes.insert(shape(&t.s, &f.s, mm::matches(&t.s, &f.s)));
+            }
+        }
+        if enough(&st) {
+            break 'pairs;
+        }
+    }
+
+    // (3) conformance scope: longer (valid topic, valid filter) pairs, exhaustive
+    let n_valid = count_strings(plan.valid_pairs_max) as usize;
+    let topics: Vec<&Entry> = strings[..n_valid].iter().filter(|e| e.topic_ok).collect();
+    let filters: Vec<&Entry> = strings[..n_valid].iter().filter(|e| e.filter_ok).collect();
+    'valid: for (i, t) in topics.iter().enumerate() {
+        if i % shards != shard {
+            continue;
+        }
+        for f in &filters {
+            // pairs of at most pairs_max symbols each were done in (2)
+            if t.s.chars().count() <= plan.pairs_max && f.s.chars().count() <= plan.pairs_max {
+                continue;
+            }
+            st.evaluations += 1;
+            check_pair(ctx, &mut st, &mut ta, &t.s, &f.s, true);
+        }
+        if enough(&st) {
+            break 'valid;
+        }
+    }
+    if shard == 0 {
+        st.add_extra("valid_topics_in_conformance_scope", topics.len() as u64);
+        st.add_extra("valid_filters_in_conformance_scope", filters.len() as u64);
+    }
+
+    // (4) random, longer strings
+    let mut rng = Rng::new(seed ^ 0xc12);
+    let mut with_trigger = 0u64;
+    for n in 0..plan.random / shards as u64 {
+        let (topic, filter, trig) = random_case(&mut rng);
+        with_trigger += trig as u64;
+        st.evaluations += 1;
+        let in_domain = mm::valid_topic(&topic) && mm::valid_filter(&filter);
+        check_pair(ctx, &mut st, &mut ta, &topic, &filter, in_domain);
+        check_string(ctx, &mut st, &mut ta, &topic);
+        check_string(ctx, &mut st, &mut ta, &filter);
+        if in_domain {
+            st.shapes.insert(shape(&topic, &filter, mm::matches(&topic, &filter)));
+        }
+        if shard == 0 && n < 1 {
+            st.sample(sample(&topic, &filter));
+        }
+        if enough(&st) {
+            break;
+        }
+    }
+    st.add_extra("random_cases_allowing_known_trigger", with_trigger);
+    ta.flush(&mut st);
+    st
+}
+
+/// a case written out with what the monitors observed
+fn sample(topic: &str, filter: &str) -> Value {
+    let obs = |r: Result<bool, PanicInfo>| match r {
+        Ok(v) => json!(v),
+        Err(p) => json!(format!("panic at {}", p.location)),
+    };
+    let mut m = serde_json::Map::new();
+    for c in COPIES.iter() {
+        m.insert(
+            c.name.to_owned(),
+            json!({
+                "matches": obs(guarded(|| (c.matches)(topic, filter))),
+                "valid_topic(topic)": obs(guarded(|| (c.valid_topic)(topic))),
+                "valid_filter(filter)": obs(guarded(|| (c.valid_filter)(filter))),
+                "has_wildcards(filter)": obs(guarded(|| (c.has_wildcards)(filter))),
+            }),
+        );
+    }
+    let in_domain = mm::valid_topic(topic) && mm::valid_filter(filter);
+    json!({
+        "topic": topic,
+        "filter": filter,
+        "observed": m,
+        "model": {
+            "valid_topic(topic)": mm::valid_topic(topic),
+            "valid_filter(filter)": mm::valid_filter(filter),
+            "matches": if in_domain { json!(mm::matches(topic, filter)) } else { json!("not defined (outside valid topic x valid filter)") },
+        }
+    })
+}
+
+fn plan(ctx: &Ctx) -> Plan {
+    if cfg!(miri) {
+        // Miri smoke (DESIGN.md 2.8): a few hundred calls, judged by Miri's own UB reports
+        return Plan {
+            pairs_max: 1,
+            valid_pairs_max: 2,
+            strings_max: 2,
+            random: 40,
+        };
+    }
+    if ctx.quick() {
+        Plan {
+            pairs_max: 3,
+            valid_pairs_max: 4,
+            strings_max: 5,
+            random: ctx.size(400_000, 0),
+        }
+    } else {
+        Plan {
+            pairs_max: 4,
+            valid_pairs_max: 6,
+            strings_max: 7,
+            random: ctx.size(0, 10_000_000),
+        }
+    }
+}
+
+fn run(ctx: &Ctx) -> Stats {
+    let plan = plan(ctx);
+    let threads = ctx.threads.max(1);
+    let strings = all_strings(plan.pairs_max.max(plan.valid_pairs_max));
+    let mut st = sharded(ctx, threads, |shard, seed| work(ctx, &plan, &strings, shard, threads, seed));
+    // every shard stops after 5 violations; keep 5 in total
+    st.violations.truncate(5);
+    st.sample(sample("$a/b", "+/b"));
+    st.sample(sample("é/a", "+/a"));
+    if st.violations.is_empty() {
+        st.exhaustive_scopes.push(format!(
+            "matches(): every (topic, filter) pair of strings of <= {} symbols over {{a b / + # $ é €}} ({} strings each, empty string included), all three copies: no-panic + agreement, conformance on the valid pairs",
+            plan.pairs_max,
+            count_strings(plan.pairs_max)
+        ));
+        st.exhaustive_scopes.push(format!(
+            "matches(): every (valid topic, valid filter) pair of <= {} symbols over the same alphabet, all three copies: no-panic + agreement + conformance",
+            plan.valid_pairs_max
+        ));
+        st.exhaustive_scopes.push(format!(
+            "valid_filter / valid_topic / has_wildcards: every string of <= {} symbols over the same alphabet ({} strings), all three copies",
+            plan.strings_max,
+            count_strings(plan.strings_max)
+        ));
+    }
+    st
+}
+
+fn replay(ctx: &Ctx, case: &Value) -> Stats {
+    let mut st = Stats::default();
+    let mut ta = Tally::default();
+    st.evaluations = 1;
+    match case["kind"].as_str() {
+        Some("pair") => {
+            let topic = case["topic"].as_str().unwrap_or("");
+            let filter = case["filter"].as_str().unwrap_or("");
+            let in_domain = mm::valid_topic(topic) && mm::valid_filter(filter);
+            check_pair(ctx, &mut st, &mut ta, topic, filter, in_domain);
+            st.sample(sample(topic, filter));
+        }
+        Some("string") => {
+            let s = case["s"].as_str().unwrap_or("");
+            check_string(ctx, &mut st, &mut ta, s);
+            st.sample(json!({"string": s}));
+        }
+        _ => st.inconclusive.push("replay file has no C12 case".into()),
+    }
+    ta.flush(&mut st);
+    // a single replayed case cannot reach the coverage floors; say so instead of passing
+    if st.violations.is_empty() {
+        st.inconclusive.push("replayed case did not reproduce a violation".into());
+    }
+    st
 }
 
 pub fn prop() -> Prop {
     Prop {
-        id: "C12",
+        id: ID,
         meta: Meta {
             level: "exploration",
-            rule: "not built",
-            assumptions: &[],
-            floors: &[],
+            rule: "a case is one (topic, filter) pair given to matches() of all three copies, or one string given to the three validation functions of all three copies. distinct_nontrivial counts distinct (level classes of the topic, level classes of the filter, M-match answer) triples among the pairs judged for conformance in the all-pairs scope and the random phase, where a level class is one of empty, '+', '#', literal, '$'-first literal, multi-byte-first literal, literal with an inner multi-byte character; letters are abstracted, pairs outside (valid topic, valid filter) are not counted",
+            assumptions: &[
+                "the answer on the empty string and the answer of matches() outside (valid topic, valid filter) are not defined by the statement: only no-panic and agreement of the copies are demanded there",
+                "has_wildcards(s) is read as: s contains '+' or '#'",
+                "the DataLog::matches cache clause is exercised by the router checks, not here",
+            ],
+            floors: &[
+                ("matches-conformance", 100_000),
+                ("copies-disagree", 300_000),
+                ("valid-filter-conformance", 30_000),
+                ("hash-matches-parent", 100),
+                ("hash-matches-deeper-levels", 100),
+                ("plus-matches-empty-level", 100),
+                ("plus-refuses-extra-level", 100),
+                ("dollar-topic-unmatched", 100),
+                ("multibyte-first-char-topic", 100),
+                ("multibyte-inside-topic", 100),
+                ("empty-level-literal-match", 100),
+                ("differs-only-in-case", 10),
+            ],
         },
         run,
-        replay: None,
+        replay: Some(replay),
     }
 }
